@@ -243,6 +243,28 @@ func (w Wide[T]) Get(a int) int { return int(w.pad[5]) + a + 600 }
 //go:noinline
 func (g *G[T]) Many(a, b, c, d, e, f, h int) int { return g.n + a + b + c + d + e + f + h + 700 }
 
+// Huge is passed by value through runtime.duffcopy (136 bytes): its dictionary wrapper calls into the middle of that
+// runtime routine before it calls the shared body.
+type Huge[T any] struct {
+	pad [16]int64
+	v   T
+}
+
+//go:noinline
+func (h Huge[T]) Get(a int) int { return int(h.pad[15]) + a + 1100 }
+
+// Plain is not generic; Emb promotes its method into an instantiated generic type, whose wrapper Emb[int].Val forwards
+// to Plain.Val - a method of another type.
+type Plain struct{ n int }
+
+//go:noinline
+func (p Plain) Val() int { return p.n + 1200 }
+
+type Emb[T any] struct {
+	Plain
+	v T
+}
+
 type Box[T any] struct {
 	v T
 	n int
@@ -296,6 +318,12 @@ func TestC06Generics(t *testing.T) {
 		inst{"G[int].Many", "many-int", func(a int) int { return gi.Many(a, 1, 2, 3, 4, 5, 6) }, func(a int) int { return gi.Other(a) }, func(b *mocker.Builder, v int) { b.Struct(&G[int]{}).Method("Many").Return(v) }},
 		inst{"G[string].Many", "many-string", func(a int) int { return gs.Many(a, 1, 2, 3, 4, 5, 6) }, func(a int) int { return gs.Other(a) }, func(b *mocker.Builder, v int) { b.Struct(&G[string]{}).Method("Many").Return(v) }},
 	)
+	hi, hs := Huge[int]{pad: [16]int64{15: 5}}, Huge[string]{pad: [16]int64{15: 6}}
+	plain := Plain{n: 4}
+	insts = append(insts,
+		inst{"Huge[int].Get", "huge-int", func(a int) int { return hi.Get(a) }, func(a int) int { return plain.Val() }, func(b *mocker.Builder, v int) { b.Struct(Huge[int]{}).Method("Get").Return(v) }},
+		inst{"Huge[string].Get", "huge-string", func(a int) int { return hs.Get(a) }, func(a int) int { return plain.Val() }, func(b *mocker.Builder, v int) { b.Struct(Huge[string]{}).Method("Get").Return(v) }},
+	)
 	bi, bs := Box[int]{n: 7}, Box[string]{n: 8}
 	insts = append(insts,
 		inst{"Box[int].Val", "box-int", func(a int) int { return bi.Val() }, func(a int) int { return gi.Other(a) }, func(b *mocker.Builder, v int) { b.Struct(Box[int]{}).Method("Val").Return(v) }},
@@ -317,6 +345,7 @@ func TestC06Generics(t *testing.T) {
 	for i, in := range insts {
 		b := mocker.Create()
 		var perr interface{}
+		rep.Journal(map[string]interface{}{"part": "generics", "instantiation": in.name, "crashkey": "C06/generic-mock-kills-the-process:" + in.shape})
 		func() {
 			defer func() { perr = recover() }()
 			in.mock(b, 7000+i)
@@ -377,6 +406,31 @@ func TestC06Generics(t *testing.T) {
 			rep.Violate("C06/receiver-not-handed-over", fmt.Sprintf("Apply on G[int].Inner, G[*GA].Inner, Box[string].Count: results %v (want [1 2 3]), receivers seen %#x, want %#x, panic %v", got, seen, want, perr), nil)
 		}
 		b.Reset()
+	}
+	// a method promoted into an instantiated generic type from an embedded plain type: whatever the mock does to calls on
+	// the generic type, the embedded type's own method is another method and stays as it is
+	{
+		b := mocker.Create()
+		e := Emb[int]{Plain: Plain{n: 3}}
+		before := plain.Val()
+		var perr interface{}
+		rep.Journal(map[string]interface{}{"part": "generics", "instantiation": "Emb[int].Val (promoted)", "crashkey": "C06/generic-mock-kills-the-process:promoted"})
+		func() {
+			defer func() { perr = recover() }()
+			b.Struct(Emb[int]{}).Method("Val").Return(8801)
+		}()
+		rep.Eval(2)
+		rep.Class("generic/promoted-method-of-embedded-plain-type")
+		if perr == nil {
+			if got := plain.Val(); got != before {
+				rep.Violate("C06/other-type-method-affected", fmt.Sprintf("mocking Emb[int].Val (promoted from the embedded Plain) changed Plain.Val on a plain value: %d, want %d", got, before), nil)
+			}
+			_ = e.Val()
+		}
+		func() { defer func() { recover() }(); b.Reset() }()
+		if got, got2 := plain.Val(), e.Val(); got != before || got2 != 1203 {
+			rep.Violate("C06/not-restored", fmt.Sprintf("after Reset of the Emb[int].Val mock: Plain.Val = %d (want %d), Emb[int].Val = %d (want 1203)", got, before, got2), nil)
+		}
 	}
 	// two instantiations of equal GC shape (they share one body) mocked one after the other without a Reset in between:
 	// the one mocked last is replaced (no "already patched" refusal), and Reset brings both back
